@@ -42,8 +42,17 @@ def _iv(x):
     return BAD
 
 
+def _ints(a):
+    """float array -> nested list of ints, BAD where the value is not an integer"""
+    a = np.asarray(a, dtype=float)
+    ok = np.isfinite(a) & (np.abs(a) < BAD)
+    a = np.where(ok, a, 0.0)
+    ok &= a == np.rint(a)
+    return np.where(ok, a, BAD).astype(np.int64).tolist()
+
+
 def _col(df, name):
-    return [_iv(v) for v in df[name].to_numpy()]
+    return _ints(df[name].to_numpy())
 
 
 # ------------------------------------------------------------------------------------------------
@@ -74,7 +83,7 @@ class Recorder:
             df, arr = rec.orig["find_tip_trough"](arr_peak, arr_peak_real, df)
             cols = [_col(df, COLS[k]) for k in ("pk", "pkv", "tr", "trv", "tip", "tipv")]
             cols.append(_col(df, "invert_sign_peak"))
-            cols.append([[_iv(v) for v in row] for row in np.asarray(arr)])
+            cols.append(_ints(arr))
             rec.ev.append(("TipTrough", cols))
             return df, arr
 
@@ -186,7 +195,8 @@ def evaluate(ctx, mats, d, rnd, budget, single_cap):
     T, C = len(mats[0]), len(mats[0][0])
     dd = 5 if d is None else d
     adm = [i for i, m in enumerate(mats) if admissible_py(m) and dd < T]
-    oth = [i for i in range(len(mats)) if i not in set(adm)]
+    aset = set(adm)
+    oth = [i for i in range(len(mats)) if i not in aset]
     rnd.shuffle(oth)
     oth = oth[:single_cap]
     recs = []
@@ -247,9 +257,9 @@ def harness_boxes(ctx):
     if ctx.quick:
         return [(5, 1, range(-3, 4), [1, 2], 6000), (4, 2, range(-2, 3), [1, 3], 3000),
                 (3, 3, [-1, 0, 1, NAN], [1], 1500)]
-    return [(5, 1, range(-3, 4), [0, 1, 2, 3, 4], None), (6, 1, range(-3, 4), [1, 2, 5], 60000),
-            (4, 2, range(-2, 3), [1, 2, 3], 60000), (3, 2, range(-3, 4), [1, 2], 30000),
-            (3, 3, [-1, 0, 1, NAN], [1, 2], 20000), (7, 1, range(-2, 3), [1, 3, 6], 30000)]
+    return [(5, 1, range(-3, 4), [0, 4], None), (6, 1, range(-3, 4), [1, 2, 5], 25000),
+            (4, 2, range(-2, 3), [1, 3], 30000), (3, 2, range(-3, 4), [1, 2], 15000),
+            (3, 3, [-1, 0, 1, NAN], [1, 2], 10000), (7, 1, range(-2, 3), [1, 3, 6], 12000)]
 
 
 _TEMPLATE = {}
@@ -393,18 +403,18 @@ def run(ctx):
     nrnd = np.random.default_rng(ctx.seed)
     # 1. model: implementation layer => property layer, exhaustive boxes (parallel JVMs)
     cfgs = (["Features_quick", "Features_quick2", "Features_quickN"] if ctx.quick else
-            ["Features_thorough1", "Features_thorough2", "Features_thorough3", "Features_thoroughN", "Features_quick2"])
+            ["Features_thorough1", "Features_thorough2", "Features_thorough3", "Features_thoroughN", "Features_cov"])
     with ThreadPoolExecutor(max_workers=4) as ex:
         # -coverage (vacuity control) only on the small box: it multiplies TLC's memory on the large ones
         res = list(ex.map(lambda c: tlc.run("mc/MC_Features.tla", f"mc/{c}.cfg", workers=4, timeout=3000, heap="6g",
-                                            coverage=(not ctx.quick and c == "Features_quick2")), cfgs))
+                                            coverage=(not ctx.quick and c == "Features_cov")), cfgs))
     model_cex = []
     for c, r in zip(cfgs, res):
         ctx.tlc(r, c)
         if not r.ok:
             st = r.error_trace[-1] if r.error_trace else {}
             model_cex.append((c, r.invariant_violated, st))
-        elif not ctx.quick and c == "Features_quick2":
+        elif not ctx.quick and c == "Features_cov":
             zero = [a for a in tlc.coverage_zero_actions(r.out)]
             if zero:
                 raise tlc.TLCError(f"{c}: actions never taken: {zero}")
@@ -427,7 +437,7 @@ def run(ctx):
             groups.setdefault((len(c["w"]), len(c["w"][0]), d), []).append(k)
     expected = {}
     for (T, C, d), ks in sorted(groups.items()):
-        rs = evaluate(ctx, [exported[k]["w"] for k in ks], d, rnd, budget, 250 if ctx.quick else 3000)
+        rs = evaluate(ctx, [exported[k]["w"] for k in ks], d, rnd, budget, 60 if ctx.quick else 300)
         for k in ks:
             expected[json.dumps([exported[k]["w"], d])] = exported[k]["exp"][d]
         recs += rs
@@ -445,7 +455,7 @@ def run(ctx):
             pick = set(rnd.sample(range(total), min(cap, total)))
             ws = [w for i, w in enumerate(allw) if i in pick]
         for d in ds:
-            recs += evaluate(ctx, ws, d, rnd, budget, 150 if ctx.quick else 1500)
+            recs += evaluate(ctx, ws, d, rnd, budget, 40 if ctx.quick else 200)
     _t(ctx, f"harness boxes ({len(recs) - nexp})")
     # realistic integer-count batches through the default arguments (5 samples offset)
     nreal = 500 if ctx.quick else 5000
